@@ -130,8 +130,6 @@ structure State where
   awaitPingresp : Bool
   collisionPingCount : Nat
   lastPkid : Nat
-  /-- v4 only (`last_puback`); stays 0 in v5 -/
-  lastPuback : Nat
   inflight : Nat
   /-- v4 `max_inflight`; v5 `max_outgoing_inflight` (lowered by CONNACK receive_max) -/
   maxInflight : Nat
@@ -139,6 +137,11 @@ structure State where
   upperLimit : Nat
   /-- index = packet id, slot 0 unused -/
   outgoingPub : List (Option Pub)
+  /-- v4 `outgoing_order`: for every slot the value of `outgoing_count` when it was filled.
+      (The v5 state has no such field; the model keeps the stamps for both versions, v5 never reads them.) -/
+  outgoingOrder : List Nat
+  /-- v4 `outgoing_count` (u64 in the Rust; 2^64 stored publishes are out of reach, not modelled as a panic) -/
+  outgoingCount : Nat
   /-- `FixedBitSet::with_capacity(max + 1)` -/
   outgoingRel : List Bool
   /-- `FixedBitSet` of capacity 65536 as the list of set bits (ids are u16, so never out of bounds) -/
@@ -154,9 +157,10 @@ structure State where
 
 /-- `MqttState::new(max_inflight, manual_acks)` -/
 def State.new (ver : Version) (max : Nat) (manualAcks : Bool) : State :=
-  { ver, awaitPingresp := false, collisionPingCount := 0, lastPkid := 0, lastPuback := 0,
+  { ver, awaitPingresp := false, collisionPingCount := 0, lastPkid := 0,
     inflight := 0, maxInflight := max, upperLimit := max,
     outgoingPub := List.replicate (max + 1) none,
+    outgoingOrder := List.replicate (max + 1) 0, outgoingCount := 0,
     outgoingRel := List.replicate (max + 1) false,
     incomingPub := [], collision := none, events := [], manualAcks,
     aliases := [], brokerAliasMax := 0 }
@@ -175,37 +179,60 @@ def relOnes (s : State) : List Nat := relOnesFrom s.outgoingRel 0
 
 /-! ### `next_pkid` — value, new state and the overflow panic separately (no tuples) -/
 
+/-- v5: `if self.last_pkid >= self.max_outgoing_inflight { self.last_pkid = 0 }` (the limit may have
+    been lowered by a CONNACK); v4 has no such line -/
+def nextPkidBase (s : State) : Nat :=
+  match s.ver with
+  | .v4 => s.lastPkid
+  | .v5 => if s.lastPkid ≥ s.maxInflight then 0 else s.lastPkid
+
 /-- `self.last_pkid + 1` overflows u16 -/
-def nextPkidPanics (s : State) : Bool := decide (s.lastPkid ≥ u16Max)
-def nextPkidVal (s : State) : Nat := s.lastPkid + 1
+def nextPkidPanics (s : State) : Bool := decide (nextPkidBase s ≥ u16Max)
+def nextPkidVal (s : State) : Nat := nextPkidBase s + 1
+/-- wrap test: `==` in v4, `>=` in v5 -/
+def nextPkidWraps (s : State) : Bool :=
+  match s.ver with
+  | .v4 => decide (nextPkidVal s = s.maxInflight)
+  | .v5 => decide (nextPkidVal s ≥ s.maxInflight)
 def nextPkidSt (s : State) : State :=
-  if s.lastPkid + 1 = s.maxInflight then { s with lastPkid := 0 } else { s with lastPkid := s.lastPkid + 1 }
+  if nextPkidWraps s then { s with lastPkid := 0 } else { s with lastPkid := nextPkidVal s }
 
 /-- PubAck/PubRec reasons that count as success: `Success` (0) and `NoMatchingSubscribers` (16) -/
 def ackOk (reason : Nat) : Bool := reason == 0 || reason == 16
 
 /-! ### outgoing -/
 
-/-- tail of `outgoing_publish`: v5 alias check (after the bookkeeping!), event, packet -/
-def publishTail (s : State) (p : Pub) : State × Outcome :=
-  match s.ver, p.alias with
-  | .v5, some a =>
-    if a > s.brokerAliasMax then (s, .err .invalidAlias)
-    else (s.pushOut (.publish p.pkid), .ok (some (.publish p)))
-  | _, _ => (s.pushOut (.publish p.pkid), .ok (some (.publish p)))
+/-- a publish is remembered until acknowledged: slot of its id, send stamp (`sent_now`), counter -/
+def storePub (s : State) (p : Pub) : State :=
+  { s with outgoingPub := s.outgoingPub.set p.pkid (some p),
+           outgoingOrder := s.outgoingOrder.set p.pkid s.outgoingCount,
+           outgoingCount := s.outgoingCount + 1,
+           inflight := s.inflight + 1 }
 
-/-- `outgoing_publish` for QoS 1/2 once the packet id is fixed -/
+/-- tail of `outgoing_publish`: event, packet -/
+def publishTail (s : State) (p : Pub) : State × Outcome :=
+  (s.pushOut (.publish p.pkid), .ok (some (.publish p)))
+
+/-- `outgoing_publish` for QoS 1/2 once the packet id is fixed: the id is in use while a publish
+    is stored under it or its release is pending -/
 def publishWithId (s : State) (p : Pub) : State × Outcome :=
   match s.outgoingPub[p.pkid]? with
   | none => (s, .err (.unsolicited p.pkid))
-  | some (some _) =>
-    ({ s with collision := some p }.pushOut (.awaitAck p.pkid), .ok none)
-  | some none =>
-    if s.inflight ≥ u16Max then (s, .panic) else
-    publishTail { s with outgoingPub := s.outgoingPub.set p.pkid (some p), inflight := s.inflight + 1 } p
+  | some slot =>
+    if slot.isSome || relContains s p.pkid then
+      ({ s with collision := some p }.pushOut (.awaitAck p.pkid), .ok none)
+    else if s.inflight ≥ u16Max then (s, .panic)
+    else publishTail (storePub s p) p
+
+/-- v5: the topic alias is validated before anything is recorded -/
+def aliasTooLarge (s : State) (p : Pub) : Bool :=
+  match s.ver, p.alias with
+  | .v5, some a => decide (a > s.brokerAliasMax)
+  | _, _ => false
 
 def outgoingPublish (s : State) (p : Pub) : State × Outcome :=
-  if p.qos = 0 then publishTail s p
+  if aliasTooLarge s p then (s, .err .invalidAlias)
+  else if p.qos = 0 then publishTail s p
   else if p.pkid = 0 then
     if nextPkidPanics s then (s, .panic)
     else publishWithId (nextPkidSt s) { p with pkid := nextPkidVal s }
@@ -263,30 +290,25 @@ def handleOutgoing (s : State) (r : Request) : State × Outcome :=
 
 /-! ### incoming -/
 
-/-- the continuation of a PUBACK after the slot was freed: `check_collision` and re-registration -/
-def pubackCollision (s : State) (pkid : Nat) : State × Outcome :=
+/-- `check_collision(pkid).map(..)`: the packet id `pkid` has just been freed; a publish parked on it
+    is stored, counted, announced and returned for the wire (same on every path that frees an id) -/
+def release (s : State) (pkid : Nat) : State × Outcome :=
   match s.collision with
   | some c =>
     if c.pkid = pkid then
-      ({ s with collision := none, outgoingPub := s.outgoingPub.set c.pkid (some c),
-                inflight := s.inflight + 1, collisionPingCount := 0 }.pushOut (.publish c.pkid),
+      ((storePub { s with collision := none, collisionPingCount := 0 } c).pushOut (.publish c.pkid),
         .ok (some (.publish c)))
     else (s, .ok none)
   | none => (s, .ok none)
 
-def handlePuback (s : State) (pkid reason : Nat) : State × Outcome :=
+/-- `handle_incoming_puback` (v5: a failure reason is only logged) -/
+def handlePuback (s : State) (pkid : Nat) : State × Outcome :=
   match s.outgoingPub[pkid]? with
   | none => (s, .err (.unsolicited pkid))
-  | some slot =>
-    -- v4 moves the rotation point before it looks at the slot
-    let s1 := if s.ver = .v4 then { s with lastPuback := pkid } else s
-    match slot with
-    | none => (s1, .err (.unsolicited pkid))
-    | some _ =>
-      if s1.inflight = 0 then (s1, .panic) else
-      let s2 := { s1 with outgoingPub := s1.outgoingPub.set pkid none, inflight := s1.inflight - 1 }
-      if s.ver = .v5 && !ackOk reason then (s2, .ok none)
-      else pubackCollision s2 pkid
+  | some none => (s, .err (.unsolicited pkid))
+  | some (some _) =>
+    if s.inflight = 0 then (s, .panic) else
+    release { s with outgoingPub := s.outgoingPub.set pkid none, inflight := s.inflight - 1 } pkid
 
 def handlePubrec (s : State) (pkid reason : Nat) : State × Outcome :=
   match s.outgoingPub[pkid]? with
@@ -294,83 +316,51 @@ def handlePubrec (s : State) (pkid reason : Nat) : State × Outcome :=
   | some none => (s, .err (.unsolicited pkid))
   | some (some _) =>
     let s1 := { s with outgoingPub := s.outgoingPub.set pkid none }
-    if s.ver = .v5 && !ackOk reason then (s1, .ok none)
+    if s.ver = .v5 && !ackOk reason then
+      -- refused: the flow ends here
+      if s1.inflight = 0 then (s1, .panic) else release { s1 with inflight := s1.inflight - 1 } pkid
     else if pkid < s1.outgoingRel.length then
       ({ s1 with outgoingRel := s1.outgoingRel.set pkid true }.pushOut (.pubrel pkid), .ok (some (.pubrel pkid)))
     else (s1, .panic)   -- FixedBitSet::insert out of bounds (tables have the same length, unreachable)
 
-def handlePubrel (s : State) (pkid reason : Nat) : State × Outcome :=
+/-- `handle_incoming_pubrel` ([MQTT-4.3.3-11]: answered whatever the v5 reason code says) -/
+def handlePubrel (s : State) (pkid : Nat) : State × Outcome :=
   if s.incomingPub.contains pkid then
-    let s1 := { s with incomingPub := s.incomingPub.filter (· != pkid) }
-    if s.ver = .v5 && reason != 0 then (s1, .ok none)
-    else (s1.pushOut (.pubcomp pkid), .ok (some (.pubcomp pkid)))
+    ({ s with incomingPub := s.incomingPub.filter (· != pkid) }.pushOut (.pubcomp pkid), .ok (some (.pubcomp pkid)))
   else (s, .err (.unsolicited pkid))
 
-/-- v4 `handle_incoming_pubcomp` -/
-def handlePubcompV4 (s : State) (pkid : Nat) : State × Outcome :=
+/-- `handle_incoming_pubcomp` (both versions: checks first, then the flow is over whatever the v5
+    reason code says, then a publish parked on the id is released) -/
+def handlePubcomp (s : State) (pkid : Nat) : State × Outcome :=
   if relContains s pkid then
     if s.inflight = 0 then ({ s with outgoingRel := s.outgoingRel.set pkid false }, .panic) else
-    let s1 := { s with outgoingRel := s.outgoingRel.set pkid false, inflight := s.inflight - 1 }
-    match s1.collision with
-    | some c =>
-      if c.pkid = pkid then
-        -- the collided publish goes to the wire but is NOT stored in `outgoing_pub`
-        ({ s1 with collision := none, collisionPingCount := 0 }.pushOut (.publish c.pkid), .ok (some (.publish c)))
-      else (s1, .ok none)
-    | none => (s1, .ok none)
+    release { s with outgoingRel := s.outgoingRel.set pkid false, inflight := s.inflight - 1 } pkid
   else (s, .err (.unsolicited pkid))
 
-/-- v5 `check_collision(pkid).map(..)` executed first in `handle_incoming_pubcomp` -/
-def pubcompTakeCollision (s : State) (pkid : Nat) : State :=
-  match s.collision with
-  | some c =>
-    if c.pkid = pkid then { s with collision := none, collisionPingCount := 0 }.pushOut (.publish c.pkid)
-    else s
-  | none => s
-
-def pubcompTaken (s : State) (pkid : Nat) : Option Packet :=
-  match s.collision with
-  | some c => if c.pkid = pkid then some (.publish c) else none
-  | none => none
-
-/-- v5 `handle_incoming_pubcomp`: collision taken first, then the unsolicited check -/
-def handlePubcompV5 (s : State) (pkid reason : Nat) : State × Outcome :=
-  let s1 := pubcompTakeCollision s pkid
-  if relContains s1 pkid then
-    let s2 := { s1 with outgoingRel := s1.outgoingRel.set pkid false }
-    if reason != 0 then (s2, .ok none)
-    else if s2.inflight = 0 then (s2, .panic)
-    else ({ s2 with inflight := s2.inflight - 1 }, .ok (pubcompTaken s pkid))
-  else (s1, .err (.unsolicited pkid))
-
-def handlePubcomp (s : State) (pkid reason : Nat) : State × Outcome :=
+/-- v5 topic-alias prefix of `handle_incoming_publish` (v4: nothing). `none` = empty topic with an
+    alias nobody registered: protocol error -/
+def publishAlias (s : State) (p : InPub) : Option State :=
   match s.ver with
-  | .v4 => handlePubcompV4 s pkid
-  | .v5 => handlePubcompV5 s pkid reason
-
-/-- v5 topic-alias prefix of `handle_incoming_publish` (v4: identity). An unknown alias calls
-    `handle_protocol_error()?`: the `Outgoing::Disconnect` event is pushed, the returned
-    DISCONNECT packet is discarded by `?;` and processing continues. -/
-def publishAlias (s : State) (p : InPub) : State :=
-  match s.ver with
-  | .v4 => s
+  | .v4 => some s
   | .v5 =>
     match p.alias with
-    | none => s
+    | none => some s
     | some a =>
       if !p.topicEmpty then
-        (if s.aliases.contains a then s else { s with aliases := a :: s.aliases })
-      else if s.aliases.contains a then s
-      else s.pushOut .disconnect
+        some (if s.aliases.contains a then s else { s with aliases := a :: s.aliases })
+      else if s.aliases.contains a then some s
+      else none
 
 def handlePublish (s0 : State) (p : InPub) : State × Outcome :=
-  let s := publishAlias s0 p
-  if p.qos = 0 then (s, .ok none)
-  else if p.qos = 1 then
-    if !s.manualAcks then outgoingPuback s p.pkid else (s, .ok none)
-  else
-    let s1 := if s.incomingPub.contains p.pkid then s else { s with incomingPub := p.pkid :: s.incomingPub }
-    if !s1.manualAcks then outgoingPubrec s1 p.pkid else (s1, .ok none)
+  match publishAlias s0 p with
+  | none => outgoingDisconnect s0 130   -- `return self.handle_protocol_error()`
+  | some s =>
+    if p.qos = 0 then (s, .ok none)
+    else if p.qos = 1 then
+      if !s.manualAcks then outgoingPuback s p.pkid else (s, .ok none)
+    else
+      let s1 := if s.incomingPub.contains p.pkid then s else { s with incomingPub := p.pkid :: s.incomingPub }
+      if !s1.manualAcks then outgoingPubrec s1 p.pkid else (s1, .ok none)
 
 /-- v5 `handle_incoming_connack` -/
 def handleConnack (s : State) (codeOk : Bool) (recvMax aliasMax : Option Nat) : State × Outcome :=
@@ -391,10 +381,10 @@ def handleIncoming (s0 : State) (pkt : Incoming) : State × Outcome :=
   | .publish p => handlePublish s p
   | .suback _ => (s, .ok none)
   | .unsuback _ => (s, .ok none)
-  | .puback pkid r => handlePuback s pkid r
+  | .puback pkid _ => handlePuback s pkid
   | .pubrec pkid r => handlePubrec s pkid r
-  | .pubrel pkid r => handlePubrel s pkid r
-  | .pubcomp pkid r => handlePubcomp s pkid r
+  | .pubrel pkid _ => handlePubrel s pkid
+  | .pubcomp pkid _ => handlePubcomp s pkid
   | .connack ok _ rm am =>
     (match s.ver with
      | .v4 => (s, .err .wrongPacket)
@@ -411,32 +401,47 @@ def handleIncoming (s0 : State) (pkt : Incoming) : State × Outcome :=
 
 /-! ### clean -/
 
+/-- stored publishes with their send stamps, in table order (`iter_mut().zip(&outgoing_order)`) -/
+def stamped (pubs : List (Option Pub)) (ord : List Nat) : List (Nat × Pub) :=
+  (pubs.zip ord).filterMap (fun x => x.1.map (fun p => (x.2, p)))
+
+/-- insertion into a list sorted by stamp (stable) -/
+def insertStamp (x : Nat × Pub) : List (Nat × Pub) → List (Nat × Pub)
+  | [] => [x]
+  | y :: ys => if x.1 ≤ y.1 then x :: y :: ys else y :: insertStamp x ys
+
+/-- `sort_by_key(|(order, _)| *order)` -/
+def sortStamped (l : List (Nat × Pub)) : List (Nat × Pub) := l.foldr insertStamp []
+
 def pubRequests (l : List (Option Pub)) : List Request :=
   l.filterMap (fun o => o.map Request.publish)
 
-/-- the publishes `clean()` collects, in its iteration order: v4 rotates at `last_puback + 1`
-    (`second_half.chain(first_half)`), v5 iterates from index 0 -/
+/-- the publishes `clean()` collects: v4 oldest first (by send stamp), v5 in table order -/
 def cleanPubs (s : State) : List Request :=
   match s.ver with
-  | .v4 => pubRequests (s.outgoingPub.drop (s.lastPuback + 1) ++ s.outgoingPub.take (s.lastPuback + 1))
+  | .v4 => (sortStamped (stamped s.outgoingPub s.outgoingOrder)).map (fun x => Request.publish x.2)
   | .v5 => pubRequests s.outgoingPub
+
+/-- the publish parked on a collision goes back last and unnumbered -/
+def cleanParked (s : State) : List Request :=
+  match s.collision with
+  | some c => [Request.publish { c with pkid := 0 }]
+  | none => []
 
 /-- what `clean()` returns -/
 def cleanRequests (s : State) : List Request :=
-  cleanPubs s ++ (relOnes s).map Request.pubrel
+  cleanPubs s ++ (relOnes s).map Request.pubrel ++ cleanParked s
 
-/-- `split_at_mut(last_puback + 1)` panics when `mid > len` -/
-def cleanPanics (s : State) : Bool :=
-  match s.ver with
-  | .v4 => decide (s.lastPuback + 1 > s.outgoingPub.length)
-  | .v5 => false
+/-- no panic site is left in `clean()` (the `split_at_mut` of the rotation is gone) -/
+def cleanPanics (_ : State) : Bool := false
 
-/-- the state `clean()` leaves behind (note: `collision`, `last_pkid`, `last_puback`, `events`,
-    the alias map and the negotiated limit are NOT reset) -/
+/-- the state `clean()` leaves behind (`last_pkid`, the send counter, `events`, the alias map and
+    the negotiated limit are NOT reset) -/
 def cleanState (s : State) : State :=
   { s with outgoingPub := s.outgoingPub.map (fun _ => none),
            outgoingRel := s.outgoingRel.map (fun _ => false),
-           incomingPub := [], awaitPingresp := false, collisionPingCount := 0, inflight := 0 }
+           incomingPub := [], awaitPingresp := false, collisionPingCount := 0, inflight := 0,
+           collision := none }
 
 /-- `clean()`; `none` = panic -/
 def clean (s : State) : Option (State × List Request) :=
